@@ -4,6 +4,7 @@ import GtirbVerif.Model.IR.Modify
 import GtirbVerif.Spec.ListingCheck
 import GtirbVerif.Model.IR.Batch
 import GtirbVerif.Spec.FlatCfg
+import GtirbVerif.Spec.FuncCheck
 
 /-! JSON <-> abstract IR (the canonical dump produced by harness/irdump.py). -/
 namespace Driver.IRJson
@@ -274,7 +275,8 @@ def handleListing (op : String) (j : Json) : Option (Except String Json) :=
     .ok (Json.mkObj [
       ("C01", issuesJ (checkBytes before after edits nop)),
       ("C02", issuesJ (checkLabels before after edits nop)),
-      ("C04", issuesJ (checkAnnotations before after edits nop ++ checkNoDuplicateSymbols before after))])
+      ("C04", issuesJ (checkAnnotations before after edits nop ++ checkNoDuplicateSymbols before after)),
+      ("C06", issuesJ (checkFunctions before after edits nop))])
   | "seq_positions" => some do
     -- the offset bookkeeping of `_apply_modifications` for the edits of one block
     let edits ← (← arr j "edits").mapM leditOf
